@@ -84,4 +84,588 @@ theorem sroot_spec (n : Nat) (c : Int) (hn : 0 < n) :
     have : iroot n 0 = 0 := iroot_unique n 0 0 hn (by simp [Nat.zero_pow hn]) (by simp)
     simp [this]
 
+
+/-! ### range facts of the two types -/
+
+set_option exponentiation.threshold 600 in
+theorem ty_facts (t : Ty) :
+    0 < t.bits ∧ t.bits ≤ t.wide ∧ 0 < t.one ∧ t.one < half t.bits ∧
+    half t.bits * t.one ≤ half t.wide := by
+  cases t <;>
+    norm_num [Ty.bits, Ty.wide, Ty.one, Ty.scale, half]
+
+theorem inRange_abs {t : Ty} {x : Int} (h : t.InRange x) : |x| ≤ half t.bits := by
+  unfold Ty.InRange InBits minOf maxOf at h
+  rw [abs_le]; constructor <;> omega
+
+theorem inRange_of_abs_lt {t : Ty} {x : Int} (h : |x| < half t.bits) :
+    t.InRange x ∧ minOf t.bits < x ∧ x ≤ maxOf t.bits := by
+  unfold Ty.InRange InBits minOf maxOf
+  rw [abs_lt] at h
+  refine ⟨⟨by omega, by omega⟩, by omega, by omega⟩
+
+/-- magnitude bound of an `n`-th root (`n ≥ 2`) of `x · one^(n-1)` for `x` in range: it is in range -/
+theorem root_in_range (t : Ty) (x r : Int) (n : Nat) (hn : 2 ≤ n) (hx : t.InRange x)
+    (hr : |r| ^ n ≤ |x| * t.one ^ (n - 1)) : |r| < half t.bits := by
+  obtain ⟨_, _, h1, h2, _⟩ := ty_facts t
+  have hxa := inRange_abs hx
+  by_contra hc
+  have hge : half t.bits ≤ |r| := by omega
+  have hh : 0 < half t.bits := half_pos _
+  have a : half t.bits ^ n ≤ |r| ^ n := pow_le_pow_left₀ (le_of_lt hh) hge n
+  have b : t.one ^ (n - 1) < half t.bits ^ (n - 1) :=
+    pow_lt_pow_left₀ h2 (le_of_lt h1) (by omega)
+  have c : |x| * t.one ^ (n - 1) < half t.bits * half t.bits ^ (n - 1) := by
+    have p1 : 0 < t.one ^ (n - 1) := by positivity
+    calc |x| * t.one ^ (n - 1) ≤ half t.bits * t.one ^ (n - 1) :=
+          mul_le_mul_of_nonneg_right hxa (le_of_lt p1)
+      _ < half t.bits * half t.bits ^ (n - 1) := mul_lt_mul_of_pos_left b hh
+  have d : half t.bits * half t.bits ^ (n - 1) = half t.bits ^ n := by
+    rw [← pow_succ']; congr 1; omega
+  rw [d] at c
+  omega
+
+/-- the facts about `sroot n c` in `Int` / absolute-value form -/
+theorem sroot_abs (n : Nat) (c : Int) (hn : 0 < n) :
+    |sroot n c| ^ n ≤ |c| ∧ |c| < (|sroot n c| + 1) ^ n ∧
+    (0 ≤ c → 0 ≤ sroot n c) ∧ (c ≤ 0 → sroot n c ≤ 0) := by
+  obtain ⟨a, b, c1, c2⟩ := sroot_spec n c hn
+  refine ⟨?_, ?_, c1, c2⟩
+  · rw [← Int.natCast_natAbs, ← Int.natCast_natAbs]; exact_mod_cast a
+  · rw [← Int.natCast_natAbs, ← Int.natCast_natAbs]; exact_mod_cast b
+
+/-! ### nth root -/
+
+theorem nthRoot_spec (t : Ty) (x : Int) (n : Nat) (hx : t.InRange x) :
+    ((x < 0 ∧ n % 2 = 0) ∨ n = 0 → checkedNthRoot t x n = .none) ∧
+    (¬ ((x < 0 ∧ n % 2 = 0) ∨ n = 0) → ∃ r : Int, checkedNthRoot t x n = .val r ∧ t.InRange r ∧
+      |r| ^ n ≤ |x| * t.one ^ (n - 1) ∧ |x| * t.one ^ (n - 1) < (|r| + 1) ^ n ∧
+      (0 ≤ x → 0 ≤ r) ∧ (x ≤ 0 → r ≤ 0)) := by
+  obtain ⟨_, _, h1, h2, _⟩ := ty_facts t
+  constructor
+  · intro h; unfold checkedNthRoot; rw [if_pos h]
+  · intro h
+    unfold checkedNthRoot
+    rw [if_neg h]
+    simp only [not_or] at h
+    by_cases hn1 : n = 1
+    · subst hn1
+      refine ⟨x, by simp, hx, by simp, by simp, fun h => h, fun h => h⟩
+    · rw [if_neg hn1]
+      have hn2 : 2 ≤ n := by omega
+      by_cases hx0 : x = 0
+      · subst hx0
+        rw [if_pos rfl]
+        refine ⟨0, rfl, hx, ?_, ?_, fun h => h, fun h => h⟩
+        · simp [zero_pow (by omega : n ≠ 0)]
+        · simp
+      · rw [if_neg hx0]
+        have hp : 0 < t.one ^ (n - 1) := by positivity
+        obtain ⟨s1, s2, s3, s4⟩ := sroot_abs n (x * t.one ^ (n - 1)) (by omega)
+        rw [abs_mul, abs_of_pos hp] at s1 s2
+        have hrng := root_in_range t x _ n hn2 hx s1
+        obtain ⟨r1, r2, r3⟩ := inRange_of_abs_lt hrng
+        rw [chk_of_inBits r1]
+        refine ⟨_, rfl, r1, s1, s2, ?_, ?_⟩
+        · intro hx; exact s3 (mul_nonneg hx (le_of_lt hp))
+        · intro hx; exact s4 (mul_nonpos_of_nonpos_of_nonneg hx (le_of_lt hp))
+
+
+
+/-! ### square root -/
+
+theorem sqrt_spec (t : Ty) (x : Int) (hx : t.InRange x) :
+    (x < 0 → checkedSqrt t x = .none) ∧
+    (0 ≤ x → ∃ r : Int, checkedSqrt t x = .val r ∧ t.InRange r ∧ 0 ≤ r ∧
+      r ^ 2 ≤ x * t.one ∧ x * t.one < (r + 1) ^ 2) := by
+  obtain ⟨hb0, hbw, h1, h2, h3⟩ := ty_facts t
+  constructor
+  · intro h; unfold checkedSqrt; rw [if_pos h]
+  · intro h0
+    unfold checkedSqrt
+    rw [if_neg (by omega)]
+    by_cases hx0 : x = 0
+    · subst hx0
+      rw [if_pos rfl]
+      exact ⟨0, rfl, hx, le_refl _, by simp, by simp⟩
+    · rw [if_neg hx0]
+      have hxpos : 0 < x := by omega
+      have hcpos : 0 < x * t.one := mul_pos hxpos h1
+      have hxmax : x ≤ half t.bits - 1 := hx.2
+      have hc : InBits t.wide (x * t.one) := by
+        unfold InBits minOf maxOf
+        have hw := half_pos t.wide
+        constructor
+        · omega
+        · have : x * t.one ≤ (half t.bits - 1) * t.one := mul_le_mul_of_nonneg_right hxmax (le_of_lt h1)
+          have : (half t.bits - 1) * t.one = half t.bits * t.one - t.one := by ring
+          omega
+      rw [chk_of_inBits hc]
+      simp only
+      rw [if_neg (by omega)]
+      obtain ⟨s1, s2, s3, _⟩ := sroot_abs 2 (x * t.one) (by norm_num)
+      have s0 := s3 (le_of_lt hcpos)
+      rw [abs_of_nonneg s0, abs_of_pos hcpos] at s1 s2
+      have hr1 : |sroot 2 (x * t.one)| ^ 2 ≤ |x| * t.one ^ (2 - 1) := by
+        rw [abs_of_nonneg s0, abs_of_pos hxpos]; simpa using s1
+      have hrng := root_in_range t x _ 2 (le_refl _) hx hr1
+      obtain ⟨r1, r2, r3⟩ := inRange_of_abs_lt hrng
+      have hwide : InBits t.wide (sroot 2 (x * t.one)) := by
+        have := half_mono hbw
+        unfold InBits minOf maxOf
+        rw [abs_lt] at hrng
+        constructor <;> omega
+      rw [narrow_signed_spec t.wide t.bits hb0 hbw _ hwide, if_pos ⟨r2, r3⟩]
+      exact ⟨_, rfl, r1, s0, s1, s2⟩
+
+/-! ### cube root -/
+
+set_option exponentiation.threshold 600 in
+theorem dec_cbrt_facts : InBits 320 ((Ty.one .dec) ^ 2) ∧
+    half 192 * (Ty.one .dec) ^ 2 ≤ half 320 - 1 ∧ (192 : Nat) ≤ 320 := by
+  norm_num [Ty.one, Ty.scale, half, InBits, minOf, maxOf]
+
+theorem cbrt_spec (t : Ty) (x : Int) (hx : t.InRange x) :
+    ∃ r : Int, checkedCbrt t x = .val r ∧ t.InRange r ∧
+      |r| ^ 3 ≤ |x| * t.one ^ 2 ∧ |x| * t.one ^ 2 < (|r| + 1) ^ 3 ∧
+      (0 ≤ x → 0 ≤ r) ∧ (x ≤ 0 → r ≤ 0) := by
+  obtain ⟨hb0, hbw, h1, h2, h3⟩ := ty_facts t
+  unfold checkedCbrt
+  by_cases hx0 : x = 0
+  · subst hx0
+    rw [if_pos rfl]
+    exact ⟨0, rfl, hx, by simp, by simp, fun h => h, fun h => h⟩
+  · rw [if_neg hx0]
+    have hp : 0 < t.one ^ 2 := by positivity
+    obtain ⟨s1, s2, s3, s4⟩ := sroot_abs 3 (x * t.one ^ 2) (by norm_num)
+    rw [abs_mul, abs_of_pos hp] at s1 s2
+    have hr1 : |sroot 3 (x * t.one ^ 2)| ^ 3 ≤ |x| * t.one ^ (3 - 1) := by simpa using s1
+    have hrng := root_in_range t x _ 3 (by norm_num) hx hr1
+    obtain ⟨r1, r2, r3⟩ := inRange_of_abs_lt hrng
+    have hsign1 : 0 ≤ x → 0 ≤ sroot 3 (x * t.one ^ 2) := fun hx => s3 (mul_nonneg hx (le_of_lt hp))
+    have hsign2 : x ≤ 0 → sroot 3 (x * t.one ^ 2) ≤ 0 :=
+      fun hx => s4 (mul_nonpos_of_nonpos_of_nonneg hx (le_of_lt hp))
+    cases t with
+    | dec =>
+      obtain ⟨f1, f2, f3⟩ := dec_cbrt_facts
+      simp only [cbrtWide]
+      rw [chk_of_inBits f1]
+      simp only
+      have hxa := inRange_abs hx
+      have e192 : half Ty.dec.bits = half 192 := rfl
+      rw [e192] at hxa hrng
+      have hc : InBits 320 (x * Ty.one .dec ^ 2) := by
+        have hh : |x * Ty.one .dec ^ 2| ≤ half 192 * Ty.one .dec ^ 2 := by
+          rw [abs_mul, abs_of_pos hp]
+          exact mul_le_mul_of_nonneg_right hxa (le_of_lt hp)
+        rw [abs_le] at hh
+        unfold InBits minOf maxOf
+        constructor <;> omega
+      rw [chk_of_inBits hc]
+      simp only
+      have hwide : InBits 320 (sroot 3 (x * Ty.one .dec ^ 2)) := by
+        have : half 192 ≤ half 320 := half_mono f3
+        unfold InBits minOf maxOf
+        rw [abs_lt] at hrng
+        constructor <;> omega
+      rw [narrow_signed_spec 320 Ty.dec.bits hb0 f3 _ hwide, if_pos ⟨r2, r3⟩]
+      exact ⟨_, rfl, r1, s1, s2, hsign1, hsign2⟩
+    | pdec =>
+      simp only [cbrtWide]
+      rw [chk_of_inBits r1]
+      exact ⟨_, rfl, r1, s1, s2, hsign1, hsign2⟩
+
+
+
+/-! ### powers -/
+
+/-- truncating division by a positive number: magnitude and sign -/
+theorem tdiv_mag (a D : Int) (hD : 0 < D) :
+    |Int.tdiv a D| * D ≤ |a| ∧ 0 ≤ Int.tdiv a D * a ∧ (0 ≤ a → 0 ≤ Int.tdiv a D) := by
+  obtain ⟨p, n⟩ := tdiv_bounds a D hD
+  by_cases ha : 0 ≤ a
+  · obtain ⟨p1, p2, p3⟩ := p ha
+    rw [abs_of_nonneg p3, abs_of_nonneg ha]
+    exact ⟨p1, mul_nonneg p3 ha, fun _ => p3⟩
+  · obtain ⟨n1, n2, n3⟩ := n (by omega)
+    rw [abs_of_nonpos n3, abs_of_nonpos (by omega : a ≤ 0)]
+    refine ⟨by linarith, ?_, fun h => absurd h ha⟩
+    exact mul_nonneg_of_nonpos_of_nonpos n3 (by omega)
+
+theorem square_spec (t : Ty) (x x2 : Int) (h : square t x = some x2) :
+    x2 = Int.tdiv (x * x) t.one ∧ t.InRange x2 := by
+  obtain ⟨hb0, hbw, h1, _, _⟩ := ty_facts t
+  unfold square at h
+  cases hc : chk t.wide (x * x) with
+  | none => rw [hc] at h; cases h
+  | some sq =>
+    rw [hc] at h
+    simp only at h
+    obtain ⟨hin, rfl⟩ := chk_eq_some.mp hc
+    have hq : InBits t.wide (Int.tdiv (x * x) t.one) := by
+      obtain ⟨a, b⟩ := abs_tdiv_le (x * x) t.one
+      unfold InBits minOf maxOf at hin ⊢
+      have := abs_le.mpr ⟨by linarith [neg_abs_le (x * x)], le_abs_self (x * x)⟩
+      have h1 : |x * x| ≤ half t.wide := by
+        rw [abs_le]; constructor <;> omega
+      have h2 : 0 ≤ x * x := mul_self_nonneg x
+      rw [abs_of_nonneg h2] at a b
+      constructor <;> omega
+    rw [narrow_signed_spec t.wide t.bits hb0 hbw _ hq] at h
+    split at h
+    · rename_i hr
+      cases h
+      exact ⟨rfl, ⟨le_of_lt hr.1, hr.2⟩⟩
+    · cases h
+
+theorem checkedMul_spec (t : Ty) (a b r : Int) (ha : t.InRange a) (hb : t.InRange b)
+    (h : checkedMul t a b = some r) : r = Int.tdiv (a * b) t.one ∧ t.InRange r := by
+  rw [checkedMul_eq t ha hb] at h
+  split at h
+  · rename_i hr
+    cases h
+    exact ⟨rfl, ⟨le_of_lt hr.1, hr.2⟩⟩
+  · cases h
+
+/-- the result of `powiNat` never exceeds the exact power in magnitude and has its sign:
+`|r| · one^(e-1) ≤ |x|^e` and `0 ≤ r · x^e` (for `e ≥ 1`), and is in range -/
+theorem powiNat_spec (t : Ty) : ∀ (e : Nat) (x r : Int), t.InRange x → powiNat t x e = some r →
+    t.InRange r ∧ (e = 0 → r = t.one) ∧
+    (1 ≤ e → |r| * t.one ^ (e - 1) ≤ |x| ^ e ∧ 0 ≤ r * x ^ e ∧ (0 ≤ x → 0 ≤ r)) := by
+  obtain ⟨hb0, hbw, h1, h2, _⟩ := ty_facts t
+  intro e
+  induction e using Nat.strong_induction_on with
+  | _ e ih =>
+    intro x r hx h
+    unfold powiNat at h
+    by_cases he0 : e = 0
+    · rw [if_pos he0] at h
+      cases h
+      refine ⟨?_, fun _ => rfl, fun h => by omega⟩
+      unfold Ty.InRange InBits minOf maxOf
+      have := half_pos t.bits
+      constructor <;> omega
+    · rw [if_neg he0] at h
+      by_cases he1 : e = 1
+      · rw [if_pos he1] at h
+        cases h
+        subst he1
+        refine ⟨hx, fun h => by omega, fun _ => ?_⟩
+        simp only [Nat.sub_self, pow_zero, mul_one, pow_one, le_refl, true_and]
+        exact ⟨mul_self_nonneg x, fun h => h⟩
+      · rw [if_neg he1] at h
+        cases hsq : square t x with
+        | none => rw [hsq] at h; cases h
+        | some x2 =>
+          rw [hsq] at h
+          simp only at h
+          obtain ⟨hx2, hx2r⟩ := square_spec t x x2 hsq
+          obtain ⟨m1, _, m3⟩ := tdiv_mag (x * x) t.one h1
+          rw [← hx2] at m1 m3
+          have hx2nn : 0 ≤ x2 := m3 (mul_self_nonneg x)
+          rw [abs_of_nonneg hx2nn, abs_mul_self] at m1
+          -- m1 : x2 * one ≤ x * x
+          have hxx : x * x = |x| ^ 2 := by rw [sq_abs]; ring
+          by_cases hev : e % 2 = 0
+          · rw [if_pos hev] at h
+            obtain ⟨k, hk⟩ : ∃ k, e = 2 * k := ⟨e / 2, by omega⟩
+            have hk1 : 1 ≤ k := by omega
+            have hdiv : e / 2 = k := by omega
+            rw [hdiv] at h
+            obtain ⟨i1, _, i3⟩ := ih k (by omega) x2 r hx2r h
+            obtain ⟨j1, j2, j3⟩ := i3 hk1
+            have hrnn : 0 ≤ r := j3 hx2nn
+            refine ⟨i1, fun h => by omega, fun _ => ?_⟩
+            rw [abs_of_nonneg hx2nn] at j1
+            refine ⟨?_, ?_, fun _ => hrnn⟩
+            · -- |r| one^(2k-1) = |r| one^(k-1) * one^k ≤ x2^k one^k = (x2 one)^k ≤ (x^2)^k
+              have e1 : t.one ^ (e - 1) = t.one ^ (k - 1) * t.one ^ k := by
+                rw [← pow_add]; congr 1; omega
+              have e2 : |x| ^ e = (|x| ^ 2) ^ k := by rw [← pow_mul, hk]
+              rw [e1, e2, ← hxx]
+              have p1 : 0 ≤ t.one ^ k := by positivity
+              calc |r| * (t.one ^ (k - 1) * t.one ^ k) = (|r| * t.one ^ (k - 1)) * t.one ^ k := by ring
+                _ ≤ x2 ^ k * t.one ^ k := mul_le_mul_of_nonneg_right j1 p1
+                _ = (x2 * t.one) ^ k := by rw [mul_pow]
+                _ ≤ (x * x) ^ k := pow_le_pow_left₀ (by positivity) m1 k
+            · have : x ^ e = (x ^ k) ^ 2 := by rw [← pow_mul, hk, mul_comm]
+              rw [this]; positivity
+          · rw [if_neg hev] at h
+            obtain ⟨k, hk⟩ : ∃ k, e = 2 * k + 1 := ⟨e / 2, by omega⟩
+            have hk1 : 1 ≤ k := by omega
+            have hdiv : (e - 1) / 2 = k := by omega
+            rw [hdiv] at h
+            cases hb : powiNat t x2 k with
+            | none => rw [hb] at h; cases h
+            | some b =>
+              rw [hb] at h
+              simp only at h
+              obtain ⟨i1, _, i3⟩ := ih k (by omega) x2 b hx2r hb
+              obtain ⟨j1, j2, j3⟩ := i3 hk1
+              have hbnn : 0 ≤ b := j3 hx2nn
+              rw [abs_of_nonneg hx2nn, abs_of_nonneg hbnn] at j1
+              obtain ⟨hr, hrr⟩ := checkedMul_spec t x b r hx i1 h
+              obtain ⟨n1, n2, n3⟩ := tdiv_mag (x * b) t.one h1
+              rw [← hr] at n1 n2 n3
+              refine ⟨hrr, fun h => by omega, fun _ => ?_⟩
+              refine ⟨?_, ?_, fun hx0 => n3 (mul_nonneg hx0 hbnn)⟩
+              · have e1 : t.one ^ (e - 1) = t.one * (t.one ^ (k - 1) * t.one ^ k) := by
+                  rw [← pow_add, ← pow_succ']; congr 1; omega
+                have e2 : |x| ^ e = |x| * (|x| ^ 2) ^ k := by
+                  rw [← pow_mul, hk, pow_succ']
+                rw [e1, e2, ← hxx]
+                have p1 : 0 ≤ t.one ^ k := by positivity
+                have p2 : 0 ≤ t.one ^ (k - 1) * t.one ^ k := by positivity
+                have q1 : b * t.one ^ (k - 1) * t.one ^ k ≤ (x * x) ^ k := by
+                  calc b * t.one ^ (k - 1) * t.one ^ k ≤ x2 ^ k * t.one ^ k :=
+                        mul_le_mul_of_nonneg_right j1 p1
+                    _ = (x2 * t.one) ^ k := by rw [mul_pow]
+                    _ ≤ (x * x) ^ k := pow_le_pow_left₀ (by positivity) m1 k
+                have n1' : |r| * t.one ≤ |x| * b := by
+                  rw [abs_mul, abs_of_nonneg hbnn] at n1; exact n1
+                calc |r| * (t.one * (t.one ^ (k - 1) * t.one ^ k))
+                    = (|r| * t.one) * (t.one ^ (k - 1) * t.one ^ k) := by ring
+                  _ ≤ (|x| * b) * (t.one ^ (k - 1) * t.one ^ k) := mul_le_mul_of_nonneg_right n1' p2
+                  _ = |x| * (b * t.one ^ (k - 1) * t.one ^ k) := by ring
+                  _ ≤ |x| * (x * x) ^ k := mul_le_mul_of_nonneg_left q1 (abs_nonneg x)
+              · -- sign
+                have e3 : x ^ e = x * (x ^ k) ^ 2 := by rw [← pow_mul, hk, pow_succ', mul_comm k 2]
+                rw [e3]
+                have sq : 0 ≤ (x ^ k) ^ 2 := by positivity
+                rcases eq_or_lt_of_le hbnn with hb0 | hbpos
+                · -- b = 0 → r = 0
+                  have : r = 0 := by rw [hr, ← hb0]; simp
+                  rw [this]; simp
+                · have : 0 ≤ r * x := by
+                    have h3 : 0 ≤ (r * x) * b := by linarith [n2, mul_assoc r x b]
+                    exact nonneg_of_mul_nonneg_left h3 hbpos
+                  calc (0:Int) ≤ (r * x) * (x ^ k) ^ 2 := mul_nonneg this sq
+                    _ = r * (x * (x ^ k) ^ 2) := by ring
+
+
+
+/-- `one * one` fits the wide type -/
+theorem one_sq_inBits (t : Ty) : InBits t.wide (t.one * t.one) := by
+  obtain ⟨_, _, h1, h2, h3⟩ := ty_facts t
+  have : t.one * t.one < half t.bits * t.one := mul_lt_mul_of_pos_right h2 h1
+  have p : 0 < t.one * t.one := mul_pos h1 h1
+  have := half_pos t.wide
+  unfold InBits minOf maxOf
+  constructor <;> omega
+
+/-- truncating division by any non-zero divisor: magnitude and sign (for a non-negative dividend) -/
+theorem tdiv_mag_any (a x : Int) (ha : 0 ≤ a) (hx : x ≠ 0) :
+    |Int.tdiv a x| * |x| ≤ a ∧ 0 ≤ Int.tdiv a x * x := by
+  rcases lt_or_gt_of_ne hx with hneg | hpos
+  · obtain ⟨m1, _, m3⟩ := tdiv_mag a (-x) (by omega)
+    rw [Int.tdiv_neg, abs_neg, abs_of_nonneg ha] at m1
+    rw [Int.tdiv_neg] at m3
+    rw [abs_of_neg hneg]
+    refine ⟨m1, ?_⟩
+    have := m3 ha
+    exact mul_nonneg_of_nonpos_of_nonpos (by omega) (le_of_lt hneg)
+  · obtain ⟨m1, _, m3⟩ := tdiv_mag a x hpos
+    rw [abs_of_nonneg ha] at m1
+    rw [abs_of_pos hpos]
+    exact ⟨m1, mul_nonneg (m3 ha) (le_of_lt hpos)⟩
+
+theorem checkedPowi_no_panic (t : Ty) (x e : Int) : checkedPowi t x e ≠ .panic := by
+  unfold checkedPowi
+  split
+  · rw [chk_of_inBits (one_sq_inBits t)]
+    simp only
+    split
+    · simp
+    · split
+      · simp
+      · split
+        · simp
+        · split <;> simp
+  · split <;> simp
+
+/-- non-negative exponent: `checkedPowi` is `powiNat` -/
+theorem checkedPowi_nonneg (t : Ty) (x : Int) (e : Int) (he : 0 ≤ e) :
+    checkedPowi t x e = match powiNat t x e.toNat with
+      | none => .none
+      | some v => .val v := by
+  unfold checkedPowi
+  rw [if_neg (by omega)]
+  rfl
+
+/-- negative exponent: the reciprocal truncated to the scale, then `powiNat` -/
+theorem checkedPowi_neg_val (t : Ty) (x e r : Int) (he : e < 0) (h : checkedPowi t x e = .val r) :
+    ∃ r0 : Int, x ≠ 0 ∧ r0 = Int.tdiv (t.one * t.one) x ∧ t.InRange r0 ∧
+      powiNat t r0 (-e).toNat = some r := by
+  obtain ⟨hb0, hbw, _, _, _⟩ := ty_facts t
+  unfold checkedPowi at h
+  rw [if_pos he, chk_of_inBits (one_sq_inBits t)] at h
+  simp only at h
+  by_cases hx : x = 0
+  · subst hx
+    simp [iDiv] at h
+  · unfold iDiv at h
+    rw [if_neg hx] at h
+    cases hc : chk t.wide (Int.tdiv (t.one * t.one) x) with
+    | none => rw [hc] at h; cases h
+    | some q =>
+      rw [hc] at h
+      simp only at h
+      obtain ⟨hq, rfl⟩ := chk_eq_some.mp hc
+      rw [narrow_signed_spec t.wide t.bits hb0 hbw _ hq] at h
+      by_cases hr : minOf t.bits < Int.tdiv (t.one * t.one) x ∧ Int.tdiv (t.one * t.one) x ≤ maxOf t.bits
+      · rw [if_pos hr] at h
+        simp only at h
+        by_cases he63 : e = -(2 : Int) ^ 63
+        · rw [if_pos he63] at h; cases h
+        · rw [if_neg he63] at h
+          cases hp : powiNat t (Int.tdiv (t.one * t.one) x) (-e).toNat with
+          | none => rw [hp] at h; cases h
+          | some v =>
+            rw [hp] at h
+            cases h
+            exact ⟨_, hx, rfl, ⟨le_of_lt hr.1, hr.2⟩, hp⟩
+      · rw [if_neg hr] at h; cases h
+
+
+
+/-- `x^k` is representable at the scale (as `q` subunits) and `q` is strictly inside the range -/
+def ReprPow (t : Ty) (x : Int) (k : Nat) (q : Int) : Prop :=
+  x ^ k = q * t.one ^ (k - 1) ∧ |q| < half t.bits
+
+theorem square_exact (t : Ty) (x q2 : Int) (h : ReprPow t x 2 q2) : square t x = some q2 := by
+  obtain ⟨hb0, hbw, h1, h2, h3⟩ := ty_facts t
+  obtain ⟨he, hq⟩ := h
+  have hxx : x * x = q2 * t.one := by simpa [pow_two] using he
+  have hq' := inRange_of_abs_lt hq
+  unfold square
+  have hw : InBits t.wide (x * x) := by
+    have : |x * x| < half t.bits * t.one := by
+      rw [hxx, abs_mul, abs_of_pos h1]
+      exact mul_lt_mul_of_pos_right hq h1
+    rw [abs_lt] at this
+    unfold InBits minOf maxOf
+    constructor <;> omega
+  rw [chk_of_inBits hw]
+  simp only
+  have htd : Int.tdiv (x * x) t.one = q2 := by
+    rw [hxx]; exact Int.mul_tdiv_cancel q2 (ne_of_gt h1)
+  rw [htd]
+  have hwq : InBits t.wide q2 := by
+    have := half_mono hbw
+    rw [abs_lt] at hq
+    unfold InBits minOf maxOf
+    constructor <;> omega
+  rw [narrow_signed_spec t.wide t.bits hb0 hbw _ hwq, if_pos ⟨hq'.2.1, hq'.2.2⟩]
+
+theorem powiNat_unfold (t : Ty) (x : Int) (e : Nat) (he : 2 ≤ e) :
+    powiNat t x e =
+      match square t x with
+      | none => none
+      | some x2 =>
+        if e % 2 = 0 then powiNat t x2 (e / 2)
+        else
+          match powiNat t x2 ((e - 1) / 2) with
+          | none => none
+          | some b => checkedMul t x b := by
+  conv_lhs => unfold powiNat
+  rw [if_neg (by omega), if_neg (by omega)]
+  rfl
+
+/-- exactness of `powiNat` when every intermediate power `x^k` (`1 ≤ k ≤ e`) is representable strictly
+inside the range: the result is exactly `x^e / one^(e-1)`. -/
+theorem powiNat_exact (t : Ty) : ∀ (e : Nat) (x : Int), 1 ≤ e →
+    (∀ k, 1 ≤ k → k ≤ e → ∃ q, ReprPow t x k q) →
+    ∃ q, ReprPow t x e q ∧ powiNat t x e = some q := by
+  obtain ⟨hb0, hbw, h1, h2, h3⟩ := ty_facts t
+  have hone : t.one ≠ 0 := ne_of_gt h1
+  intro e
+  induction e using Nat.strong_induction_on with
+  | _ e ih =>
+    intro x he H
+    by_cases he1 : e = 1
+    · subst he1
+      obtain ⟨q, hq⟩ := H 1 (le_refl _) (le_refl _)
+      have : q = x := by
+        have := hq.1; simp at this; exact this.symm
+      subst this
+      refine ⟨q, hq, ?_⟩
+      unfold powiNat; simp
+    · have he2 : 2 ≤ e := by omega
+      obtain ⟨q2, hq2⟩ := H 2 (by norm_num) he2
+      have hsq := square_exact t x q2 hq2
+      have hxx : x * x = q2 * t.one := by simpa [pow_two] using hq2.1
+      -- representability of the powers of q2
+      have Hq2 : ∀ j, 1 ≤ j → 2 * j ≤ e → ∀ Q, ReprPow t x (2 * j) Q → ReprPow t q2 j Q := by
+        intro j hj hje Q hQ
+        refine ⟨?_, hQ.2⟩
+        have e1 : q2 ^ j * t.one ^ j = (Q * t.one ^ (j - 1)) * t.one ^ j := by
+          calc q2 ^ j * t.one ^ j = (q2 * t.one) ^ j := by rw [mul_pow]
+            _ = (x * x) ^ j := by rw [hxx]
+            _ = x ^ (2 * j) := by rw [← pow_two, ← pow_mul]
+            _ = Q * t.one ^ (2 * j - 1) := hQ.1
+            _ = (Q * t.one ^ (j - 1)) * t.one ^ j := by
+                rw [mul_assoc, ← pow_add]; congr 2; omega
+        exact mul_right_cancel₀ (pow_ne_zero j hone) e1
+      rw [powiNat_unfold t x e he2, hsq]
+      simp only
+      by_cases hev : e % 2 = 0
+      · rw [if_pos hev]
+        obtain ⟨k, hk⟩ : ∃ k, e = 2 * k := ⟨e / 2, by omega⟩
+        have hdiv : e / 2 = k := by omega
+        rw [hdiv]
+        obtain ⟨Q, hQ⟩ := H e he (le_refl _)
+        have Hk : ∀ j, 1 ≤ j → j ≤ k → ∃ q, ReprPow t q2 j q := by
+          intro j hj hjk
+          obtain ⟨Qj, hQj⟩ := H (2 * j) (by omega) (by omega)
+          exact ⟨Qj, Hq2 j hj (by omega) Qj hQj⟩
+        obtain ⟨q', hq', hp⟩ := ih k (by omega) q2 (by omega) Hk
+        have hQk : ReprPow t q2 k Q := Hq2 k (by omega) (by omega) Q (by rw [← hk]; exact hQ)
+        have : q' = Q := by
+          have e1 := hq'.1; have e2 := hQk.1
+          rw [e1] at e2
+          exact mul_right_cancel₀ (pow_ne_zero _ hone) e2
+        subst this
+        exact ⟨q', hQ, hp⟩
+      · rw [if_neg hev]
+        obtain ⟨k, hk⟩ : ∃ k, e = 2 * k + 1 := ⟨e / 2, by omega⟩
+        have hdiv : (e - 1) / 2 = k := by omega
+        rw [hdiv]
+        have hk1 : 1 ≤ k := by omega
+        obtain ⟨Q, hQ⟩ := H e he (le_refl _)
+        obtain ⟨Qk, hQk0⟩ := H (2 * k) (by omega) (by omega)
+        have hQk : ReprPow t q2 k Qk := Hq2 k hk1 (by omega) Qk hQk0
+        have Hk : ∀ j, 1 ≤ j → j ≤ k → ∃ q, ReprPow t q2 j q := by
+          intro j hj hjk
+          obtain ⟨Qj, hQj⟩ := H (2 * j) (by omega) (by omega)
+          exact ⟨Qj, Hq2 j hj (by omega) Qj hQj⟩
+        obtain ⟨q', hq', hp⟩ := ih k (by omega) q2 hk1 Hk
+        have : q' = Qk := by
+          have e1 := hq'.1; have e2 := hQk.1
+          rw [e1] at e2
+          exact mul_right_cancel₀ (pow_ne_zero _ hone) e2
+        subst this
+        rw [hp]
+        simp only
+        -- the final multiplication is exact
+        obtain ⟨q1, hq1⟩ := H 1 (le_refl _) (by omega)
+        have hx1 : q1 = x := by have := hq1.1; simp at this; exact this.symm
+        subst hx1
+        have hxr := (inRange_of_abs_lt hq1.2).1
+        have hbr := (inRange_of_abs_lt hq'.2).1
+        have hQr := inRange_of_abs_lt hQ.2
+        have hprod : q1 * q' = Q * t.one := by
+          have e1 : (q1 * q') * t.one ^ (2 * k - 1) = (Q * t.one) * t.one ^ (2 * k - 1) := by
+            calc (q1 * q') * t.one ^ (2 * k - 1) = q1 * (q' * t.one ^ (2 * k - 1)) := by ring
+              _ = q1 * q1 ^ (2 * k) := by rw [← hQk0.1]
+              _ = q1 ^ e := by rw [hk, pow_succ']
+              _ = Q * t.one ^ (e - 1) := hQ.1
+              _ = (Q * t.one) * t.one ^ (2 * k - 1) := by
+                  rw [mul_assoc, ← pow_succ']; congr 2; omega
+          exact mul_right_cancel₀ (pow_ne_zero _ hone) e1
+        rw [checkedMul_eq t hxr hbr, hprod, Int.mul_tdiv_cancel Q hone]
+        have : Ty.min t < Q ∧ Q ≤ Ty.max t := ⟨hQr.2.1, hQr.2.2⟩
+        rw [if_pos this]
+        exact ⟨Q, hQ, rfl⟩
+
+
 end Radix.DecimalPow
